@@ -15,6 +15,8 @@ ValsL == {"x", "yyyy"}
 ActsC04 == {"CachePut", "CacheDelete", "CacheCommit", "CacheReset", "OvlCommit"}
 ActsC03 == {"OvlPut", "OvlDelete"}
 ActsC44 == {"ContractPut", "CacheCommit", "CacheReset", "OvlCommit", "Migrate", "Destroy", "Deploy", "DeployRefused"}
+\* ledger-level binding (transactions = runs of contract actions closed by CacheCommit/CacheReset, blocks = OvlCommit)
+ActsC44n == {"ContractPut", "CacheCommit", "CacheReset", "OvlCommit", "Migrate", "Destroy", "Deploy", "DeployRefused"}
 DiskAll3 == [1..3 -> {"", "x"}]
 DiskEmpty3 == {[i \in 1..3 |-> ""]}
 DiskEmpty6 == {[i \in 1..6 |-> ""]}
